@@ -161,6 +161,7 @@ def writeV (lay : Layout) (d : Nat) : J → List Char
   | int i => intChars i
   | flo t => t.toList
   | str s => writeStr s
+  | .time t => t.toList         -- opaque; not part of the text round trip (`TextOk` excludes it)
   | arr [] => ['[', ']']
   | arr (x :: xs) => '[' :: (lay.nl (d + 1) ++ (writeV lay (d + 1) x ++ writeRestL lay d xs))
   | obj [] => ['{', '}']
